@@ -198,6 +198,8 @@ QUICK = [i for i, c in enumerate(CASES) if c["f"] in ("p_i", "p_ni", "p_li", "p_
 
 @obligation(tier="quick", timeout=200, shards=[{"case": i} for i in range(len(CASES))], quick_shards=QUICK,
             samples=[{"n0": 5, "n1": 2**31, "s0": "a", "s1": "", "b0": True, "b1": False, "e0": False, "e1": True},
+                     {"n0": 0, "n1": -2**31, "s0": "", "s1": "0", "b0": False, "b1": True, "e0": True, "e1": False},
+                     {"n0": 2**31 - 1, "n1": 0, "s0": "false", "s1": "null", "b0": False, "b1": False, "e0": False, "e1": False},
                      {"n0": -2**31, "n1": 0, "s0": "RED", "s1": "x", "b0": False, "b1": False, "e0": True, "e1": True}],
             symbolic=["n0, n1: int (unbounded; int literal text abstracted as int(text)=n)", "s0, s1: str (all strings)", "b0, b1: bool"],
             selectors=["e0, e1: enum value selectors", "shard: argument position (field/directive), declared type, value expression"],
@@ -338,7 +340,7 @@ from vf.ref.validation import allowed  # noqa: E402
 
 
 @obligation(tier="quick", timeout=300, shards=[{"ai": i} for i in range(len(ARGS) + 2)],
-            samples=[{"vi": 0, "where": 0, "n": 3, "s": "x", "b": True, "dflt": False, "vmode": 0}, {"vi": 5, "where": 1, "n": 3, "s": "boom", "b": False, "dflt": True, "vmode": 1}],
+            samples=[{"vi": 0, "where": 0, "n": 3, "s": "x", "b": True, "dflt": False, "vmode": 0}, {"vi": 1, "where": 0, "n": 0, "s": "", "b": False, "dflt": False, "vmode": 0}, {"vi": 8, "where": 0, "n": 0, "s": "", "b": False, "dflt": False, "vmode": 0}, {"vi": 6, "where": 0, "n": 0, "s": "", "b": False, "dflt": False, "vmode": 0}, {"vi": 5, "where": 1, "n": 3, "s": "boom", "b": False, "dflt": True, "vmode": 1}],
             symbolic=["n: int", "s: str", "b: bool"],
             selectors=["vi: declared variable type (10)", "where: top level / inside a list literal / inside an object literal", "dflt: variable has a default",
                        "vmode: value provided / explicit null / not provided", "shard: argument position"],
@@ -456,7 +458,7 @@ M_QUICK = [i for i, s in enumerate(M_SHARDS) if s["mask"] in (2, 4, 9, 16, 21, 3
 
 
 @obligation(tier="quick", timeout=200, shards=M_SHARDS, quick_shards=M_QUICK,
-            samples=[{"n": 5, "s": "x", "n2": 7, "b": True, "n3": 1, "mode": 0}, {"n": 2**31, "s": "", "n2": -1, "b": False, "n3": 0, "mode": 1}, {"n": 0, "s": "q", "n2": 0, "b": False, "n3": 9, "mode": 2}],
+            samples=[{"n": 5, "s": "x", "n2": 7, "b": True, "n3": 1, "mode": 0}, {"n": 2**31, "s": "", "n2": -1, "b": False, "n3": 0, "mode": 1}, {"n": 0, "s": "q", "n2": 0, "b": False, "n3": 9, "mode": 2}, {"n": 0, "s": "", "n2": 0, "b": False, "n3": 0, "mode": 1}, {"n": -2**31, "s": "0", "n2": 2**31 - 1, "b": False, "n3": -2**31, "mode": 1}],
             symbolic=["n, n2, n3: int (unbounded)", "s: str", "b: bool — the values of the supplied arguments (variable modes)"],
             selectors=["mode: literals / variables with values / variables without runtime value", "shard: arguments-coercer configuration (engine-wide, per resolver, per directive: gather or sync), "
                        "call site (field, field with its own coercer, directive), subset of the 5 declared arguments that is supplied (all 32)"],
